@@ -132,6 +132,9 @@ def _extract_interaction_log(
 def _extract_spans(activated_rails: List[ActivatedRail]) -> List[Span]:
     """Extract a simplified span view from the log of activated rails."""
     spans = []
+    if not activated_rails:
+        # No rail ran (e.g. every category was switched off for the call): nothing to trace
+        return spans
     ref_time = activated_rails[0].started_at
     interaction_span = Span(
         span_id=new_uuid(),
